@@ -339,6 +339,20 @@ def permsAlg : Alg :=
     permsEncrypted := toy.aesEnc [] (permsBlock (pValue PERM_ALL % 4294967296) true [1, 2, 3, 4]) }
 example : errOf (permsAlg.validatePerms toy []) = none := by decide +kernel
 
+/-! Algorithms 8 and 9 (after /repo 422f3cc): model = spec, given that the model's Algorithm-2.B
+parameter is the spec's Algorithm 2.B -/
+
+theorem computeU6O6_eq_alg89 (P : Prims) (S : SPrims) (haesE : S.aesEnc = P.aesEnc) (hsha : S.sha256 = P.sha256)
+    (h2b : ∀ pw s u, P.hash2b pw s u = alg2B S pw s u) (a : Alg) (key pw salts : Bytes) (hk : key.length = 32) :
+    a.computeU6 P key pw salts = alg8 S a.revision pw key salts ∧
+    a.computeO6 P key pw salts = alg9 S a.revision pw key salts a.userValue := by
+  have hh : ∀ x s u, a.hash P x s u = hashR S a.revision x s u := by
+    intro x s u; simp [Alg.hash, hashR, hsha, h2b]
+  have e127 : R6_PW_MAX = 127 := by decide
+  have hc : ∀ k, cbc0Enc P k key = cbcE (S.aesEnc k) 2 zeroIV key := by
+    intro k; simp [cbc0Enc, cbcEnc, hk, cbcE_eq, zeroIV, haesE]
+  simp [Alg.computeU6, Alg.computeO6, alg8, alg9, hh, hc, trunc127, trunc, slice, e127]
+
 /-- F-C06-f: Algorithm 2 is fed `p_value(from_bits_truncate(P))`, not the stored P: for the
 (non-conforming but common) P = −1 the code hashes FFFFFFFC instead of FFFFFFFF. -/
 theorem p_renormalised : pValue (permsTruncate 4294967295) % 4294967296 = 4294967292 := by decide
